@@ -4,6 +4,8 @@ package stack
 
 import (
 	"fmt"
+	cl "github.com/imoore76/ldlm/server/clientlock"
+	"github.com/imoore76/ldlm/server/session/store"
 	"os"
 	"os/exec"
 	"path/filepath"
@@ -169,6 +171,77 @@ func runC18(t *testing.T, res *common.Result, rng *common.Rng) {
 	}
 	for h := 0; h < histories; h++ {
 		c18History(t, res, rng.Fork(uint64(h)), h, cfgs[h%len(cfgs)])
+	}
+	c18DuringStartup(t, res)
+}
+
+// c18DuringStartup: the admin socket is part of "a running server" from the moment it accepts
+// requests. A server restoring a large state file is asked to list and to unlock as early as its
+// socket answers: what it lists it must be able to unlock, and what it reports unlocked must stay gone.
+func c18DuringStartup(t *testing.T, res *common.Result) {
+	const N = 100000
+	dir := newInstanceDir(t)
+	state, sock := filepath.Join(dir, "state.bin"), filepath.Join(dir, "early.sock")
+	m := map[string][]cl.Lock{}
+	for i := 0; i < N; i++ {
+		sid := fmt.Sprintf("old-session-%d", i%50)
+		m[sid] = append(m[sid], cl.New(fmt.Sprintf("boot-%06d", i), fmt.Sprintf("key-%06d", i), 1))
+	}
+	st, err := store.New(state)
+	if err != nil {
+		t.Fatal(err)
+	}
+	if err := st.Write(m); err != nil {
+		t.Fatal(err)
+	}
+	st.Close()
+	done := make(chan *proc, 1)
+	go func() { done <- startServer(t, srvCfg{dir: dir, state: state, sock: sock}) }()
+	// as soon as the socket answers
+	var listed []hold
+	var early bool
+	deadline := time.Now().Add(30 * time.Second)
+	for time.Now().Before(deadline) {
+		if _, err := os.Stat(sock); err == nil {
+			if hs, _, ok := adminList(sock); ok && len(hs) > 0 {
+				listed = hs
+				break
+			}
+		}
+		select {
+		case p := <-done:
+			done <- p
+			early = false
+		default:
+			early = true
+		}
+		time.Sleep(2 * time.Millisecond)
+	}
+	res.Eval(fmt.Sprintf("during-startup|holds=%d", N), true)
+	res.Count("during-startup:list-answered-before-the-listeners-were-up=" + fmt.Sprint(early))
+	if len(listed) == 0 {
+		res.Note("C18 during-startup: the admin tool listed nothing within 30 s; scenario not judged")
+		(<-done).kill()
+		return
+	}
+	h := listed[len(listed)-1]
+	out := runAdmin(sock, "unlock", h.Name, h.Key)
+	claimed := strings.Contains(out.Stdout, "Unlocked: true")
+	srv := <-done
+	defer srv.kill()
+	if !srv.started {
+		res.Note("C18 during-startup: the server did not come up: %v", srv.logTail(10))
+		return
+	}
+	after, _, ok := adminList(sock)
+	replay := map[string]any{"state_file_holds": N, "listed_when_the_socket_first_answered": len(listed), "unlock": fmt.Sprintf("ldlm-lock unlock %s %s", h.Name, h.Key), "unlock_output": out}
+	switch {
+	case !claimed:
+		res.Find(common.Finding{Kind: "violation", Property: "C18", Signature: "stack:ipc:unlock-failed:during-startup",
+			What: fmt.Sprintf("`ldlm-lock list` showed hold %s while the server was restoring its state file, but `ldlm-lock unlock` of exactly that hold failed: %s %s", h, strings.TrimSpace(out.Stdout), strings.TrimSpace(out.Stderr)), Replay: replay})
+	case ok && containsHold(after, h):
+		res.Find(common.Finding{Kind: "violation", Property: "C18", Signature: "stack:ipc:unlock-undone:during-startup",
+			What: fmt.Sprintf("`ldlm-lock unlock` of hold %s reported success while the server was restoring its state file, but the hold is listed again once start-up has finished", h), Replay: replay})
 	}
 }
 
